@@ -236,3 +236,11 @@ func c05Case(rt *rapid.T, col *collector) {
 func init() {
 	replayFuncs["C05"] = replayHistoryC04 // same executor: the cursor oracle lives in the op
 }
+
+// FuzzC05 drives the cursor property from Go's coverage-guided fuzzer (thorough tier): the fuzz input is the
+// rapid draw stream, so a finding is shrunk and reported exactly like one of the random search.
+func FuzzC05(f *testing.F) {
+	col := newCollector("C05", c05Rule)
+	f.Cleanup(col.Flush)
+	f.Fuzz(rapid.MakeFuzz(func(rt *rapid.T) { c05Case(rt, col) }))
+}
